@@ -176,7 +176,7 @@ static void run_class(Run &run, Cn &cn, int c, bool thorough) {
         ex.explore({});
         run.add(cn.programs);
         if (ex.outcomes.size() > 1) run.add(cn.outcomes_multi);
-        if (ex.capped) run.sh->capped.store(1);
+        if (ex.capped) run.sh->capped.fetch_or(2);
         if (!sampled && p.nthreads == 2 && p.calls[0][0] != p.calls[1][0]) { run.sample(ex.case_of({}) + " -> " + std::to_string(ex.schedules) + " schedules, " + std::to_string(ex.outcomes.size()) + " outcome(s)"); sampled = true; }
     };
     std::vector<int> All; for (int q = 0; q < zoo_queries(c); ++q) All.push_back(q);
